@@ -459,8 +459,8 @@ def cases(tier, rng):
             store = make_store(n, layout, extra_col=(n + li) % 2 == 0)
             for m in all_maps(store["names"], pool):
                 for enc in ("enum", "int"):
-                    if n == 4 and not thorough and enc == "int" and len(m) == 4 and k % 2:
-                        k += 1
+                    if not thorough and enc == "int" and ((n == 4 and k % 3) or (n == 3 and layout == "var" and k % 2)):
+                        k += 1  # quick tier: the integer encoding on a third / half of the larger enumerations
                         continue
                     k += 1
                     yield "rename", {"store": store, "enc": enc, "maps": [m]}
